@@ -15,7 +15,7 @@ EXTENDS SignerAuthProps
 CONSTANTS MaxSigs,      \* signatures in a file (<= 4)
           MaxSteps,     \* signapp invocations on the same -o path (<= 3)
           MaxOps,       \* operations on one loaded SignerAuthorization object (<= 3)
-          Tools         \* subset of {"none", "key", "eth", "manual_ok", "manual_bad", "manual_spell"}
+          Tools         \* subset of {"none", "key", "eth", "eth_pub", "manual_ok", "manual_bad", "manual_spell", "message"}
 
 HL == 2
 NEVER == 99
@@ -176,7 +176,7 @@ VARIABLES pc, env, hash, iter, sigs,     \* env: record of Env choices (for gene
 vars == <<pc, env, hash, iter, sigs, fx, obs, verdict, hist>>
 
 Env0 == [hcls |-> "?", icls |-> "?", m |-> 0, mut |-> "none", at |-> 0, kind |-> "?", tool |-> "?",
-         steps |-> <<>>, mode |-> "single", ops |-> <<>>, cur |-> "?", k |-> 0]
+         steps |-> <<>>, style |-> "?", mode |-> "single", ops |-> <<>>, cur |-> "?", k |-> 0]
 NoHash == [cls |-> "?", kind |-> "other", s |-> <<>>]
 NoIter == It("?", "none", 0, <<>>)
 
@@ -280,7 +280,24 @@ ArgsOf(a) ==
 Canon == env.mut = "absent" \/ (env.mut = "none" /\ hash = H0 /\ iter = I0 /\ env.m <= 1)
 Manual(t) == t \in {"manual_ok", "manual_bad", "manual_spell"}
 
-DoStep(t, a, sp) ==
+(***************************************************************************)
+(* Invocation shape.  `signapp eth` / `eth -b` talk to an Ethereum app     *)
+(* that has one key PER derivation path; the operator selects the path     *)
+(* with -p / --path, or leaves it out (the documented default              *)
+(* m/44'/60'/0'/0/0).  The unchanged tool uses the selected path for the   *)
+(* public key it retrieves, prints, saves (-b) and checks the signature    *)
+(* against, and for the signing request.  The style of the command line    *)
+(* (short / long option names, operation first / last) never matters.      *)
+(***************************************************************************)
+PathChoices == {"absent", "default", "other_a", "other_b"}
+Styles == {"short_first", "long_first", "short_last", "long_last"}
+PathSeq(p) == CASE p = "other_a" -> <<44, 60, 0, 0, 1>>
+                [] p = "other_b" -> <<44, 137, 1, 0, 0>>
+                [] OTHER         -> <<44, 60, 0, 0, 0>>         \* absent = the default, spelled or not
+SysPath(p) == PathSeq(p)                                       \* options.path or DEFAULT_ETH_PATH
+PubOf(path) == <<4>> \o path                                   \* the app's public key for a path
+
+DoStep(t, a, sp, pth, sty) ==
     LET ar   == ArgsOf(a)
         nst  == Len(env.steps)
         via  == IF Manual(t) THEN "manual" ELSE t
@@ -292,6 +309,7 @@ DoStep(t, a, sp) ==
         res  == IF Manual(t) THEN
                     IF fx /\ SysSigOK(gsig)
                     THEN [same EXCEPT !.ok = TRUE, !.ss = Append(sigs, gsig), !.sig = gsig] ELSE same
+                ELSE IF t = "eth_pub" THEN [same EXCEPT !.ok = TRUE]        \* writes the key to its own -o
                 ELSE IF t \in {"key", "eth"} /\ fx THEN
                     [same EXCEPT !.ok = TRUE, !.ss = Append(sigs, tsig), !.sig = tsig]
                 ELSE IF ar.given = "f" \/ SysIter(ar.it) = -2 THEN same
@@ -310,22 +328,41 @@ DoStep(t, a, sp) ==
                                                \* for the concretiser: which app / iteration the arguments
                                                \* name (258 = the base iteration), did the step succeed
                                                ah |-> IF ar.h.s = HB.s THEN "B" ELSE "A", an |-> ar.n,
-                                               ok |-> res.ok])]
-    /\ Emit([k |-> "sign", via |-> via,
+                                               ok |-> res.ok, pth |-> pth]),
+                          !.style = IF nst = 0 THEN sty ELSE @]
+    /\ IF t = "eth_pub"
+       THEN Emit([k |-> "pubkey", ok |-> "t", saved |-> PubOf(SysPath(pth)), printed |-> PubOf(SysPath(pth)),
+                  want |-> PubOf(PathSeq(pth)), paths |-> <<SysPath(pth)>>, want_path |-> PathSeq(pth)])
+       ELSE
+       Emit([k |-> "sign", via |-> via,
              args |-> [given |-> ar.given, hash |-> ar.h.s,
                        iter |-> [form |-> "str", val |-> 0, s |-> ar.it.s]],
              given |-> gsig, ok |-> IF res.ok THEN "t" ELSE "f", sig |-> res.sig,
              exists |-> IF res.fx THEN "t" ELSE "f",
              file |-> IF res.fx THEN FileOf(res.h, res.it, res.ss) ELSE NoFile,
+             \* eth: the signature is by the key of the path the tool sent, checked under the key of
+             \* the path the operator selected
              verifies |-> IF res.ok /\ t \in {"key", "eth"}
-                          THEN (IF signed = K256(text) THEN "t" ELSE "f") ELSE "na",
-             ver_of |-> text])
+                          THEN (IF signed = K256(text) /\ (t = "eth" => SysPath(pth) = PathSeq(pth))
+                                THEN "t" ELSE "f") ELSE "na",
+             ver_of |-> text,
+             paths |-> IF t = "eth" THEN (IF res.ok THEN <<SysPath(pth), SysPath(pth)>> ELSE <<SysPath(pth)>>)
+                       ELSE <<>>,
+             want_path |-> IF t = "eth" THEN PathSeq(pth) ELSE <<>>])
     /\ UNCHANGED pc
 
 Step ==
     /\ pc = "tool" /\ Len(env.steps) < MaxSteps
-    /\ \E t \in Tools \ {"none"}, a \in ArgShapes, sp \in SigSpells :
+    /\ \E t \in Tools \ {"none"}, a \in ArgShapes, sp \in SigSpells, pth \in PathChoices, sty \in Styles :
          /\ Len(sigs) < MaxSigs
+         \* the path is the operator's choice for eth / eth -b (with other arguments in a first step
+         \* only); the style of the command line for one-step sessions (longer ones: the concretiser
+         \* cycles through the styles)
+         /\ (pth # "absent") => (t \in {"eth", "eth_pub"} /\ Len(env.steps) = 0)
+         /\ (t = "eth_pub") => (a = "none" /\ Canon /\ Len(env.steps) = 0)
+         /\ (Len(env.steps) = 2) => (env.steps[1].pth = "absent" /\ env.steps[1].op # "eth_pub")
+         /\ (Len(env.steps) >= 1) => (env.style = "short_first" /\ sty = "short_first")
+         /\ ~Canon => sty = "short_first"
          \* other bases and spelled files: one plain step, as before
          /\ ~Canon => (a = "none" /\ Len(env.steps) = 0 /\ t # "message")
          /\ (env.mut \notin {"none", "absent"}) => t = "key"
@@ -336,7 +373,7 @@ Step ==
          /\ (t = "manual_bad") => a = "none"
          /\ (t = "eth") => a \in {"none", "other_iter", "other_app"}
          /\ (Len(env.steps) = 2) => (t = "key" /\ a \in {"none", "other_iter"})
-         /\ DoStep(t, a, sp)
+         /\ DoStep(t, a, sp, pth, sty)
 
 \* no (more) steps; with no file the authorize command has nothing to load
 StepsDone ==
@@ -366,6 +403,7 @@ SigVer ==
          /\ (cur = "notbelow") => k = NEVER
          \* after a session only: threshold at the last signature, or never
          /\ Session => (cur = "below" /\ k \in {Len(sigs), NEVER})
+         /\ (Len(env.steps) = 3) => k = (IF Len(sigs) = 0 THEN NEVER ELSE Len(sigs))
          /\ env' = [env EXCEPT !.cur = cur, !.k = k]
          /\ LET a == <<CLA, SIGNER_AUTH, 1>> \o PyFromHex(hash.s) \o
                      <<SysIter(iter) \div 256, SysIter(iter) % 256>> IN     \* to_bytes(2, 'big')
@@ -477,6 +515,7 @@ Keccak256Digest     == Clause("Keccak256Digest") /\ Clause("OracleText")
 SignatureVerifies   == Clause("SignatureVerifies") /\ Clause("SignatureAdded")
                        /\ Clause("SignatureWellFormed") /\ Clause("SignaturesKept")
 RoundTripP          == Clause("RoundTrip") /\ Clause("RoundTripStable")
+SelectedPathUsed    == Clause("SelectedPathUsed") /\ Clause("PublicKeyOfSelectedPath")
 ExchangeShape       == Clause("SigVerFirst") /\ Clause("SignaturesInOrder")
                        /\ Clause("NothingAfterSuccess") /\ Clause("SentWithoutAuthorization")
 FileNamesItsVersion == Clause("FileNamesItsVersion")
